@@ -278,6 +278,8 @@ theorem exec_precommit_msg_binds (w : World) (s : Rep) (m : MsgD) (hph : m.hdrPh
   simp only at h
   split at h
   · cases h
+  split at h
+  · cases h
   · split at h
     · split at h <;> cases h
     · split at h
@@ -353,6 +355,19 @@ theorem agreement (committee : List Nat) (pw : Nat → Nat) (byz : Nat → Bool)
     (h1 : (genCfg committee pw byz).precommitQC tr v1 b1) (h2 : (genCfg committee pw byz).precommitQC tr v2 b2) :
     b1 = b2 :=
   Cfg.agreement_param _ hb genUnlock_lt genAdoptOk_lt genCertBound_binds tr hv v1 v2 b1 b2 h1 h2
+
+/-- the same, read as the property text: a correct validator commits only on a full PRECOMMIT_VOTE certificate
+    (`StartCommitProcessPhase` + the controller's gate; checked per commit by the correspondence run), so any two
+    blocks committed at the height by correct validators coincide — block hash and results hash. -/
+theorem committed_blocks_agree (committee : List Nat) (pw : Nat → Nat) (byz : Nat → Bool)
+    (hb : 3 * (genCfg committee pw byz).powerOf byz < (genCfg committee pw byz).total)
+    (tr : List Ev) (hv : (genCfg committee pw byz).Valid tr) (b1 b2 : Nat)
+    (h1 : ∃ v, (genCfg committee pw byz).precommitQC tr v b1) (h2 : ∃ v, (genCfg committee pw byz).precommitQC tr v b2) :
+    blkHashOf b1 = blkHashOf b2 ∧ resHashOf b1 = resHashOf b2 := by
+  obtain ⟨v1, h1⟩ := h1
+  obtain ⟨v2, h2⟩ := h2
+  rw [agreement committee pw byz hb tr hv v1 v2 b1 b2 h1 h2]
+  exact ⟨rfl, rfl⟩
 
 /-- every honest PRECOMMIT_VOTE of a valid history locks on the PROPOSE_VOTE certificate of its own view -/
 theorem locks_at_vote_view (committee : List Nat) (pw : Nat → Nat) (byz : Nat → Bool)
